@@ -82,3 +82,20 @@ pub fn all2_nets(k: u16, per_bucket: Option<usize>) -> Result<(Vec<Arc<Bound>>, 
     let info = serde_json::json!({"grammar_texts": texts, "with_a_valid_colour": with_colours, "distinct_coloured_transition_systems": distinct, "selected": chosen.len(), "rejected_by_library": rejected, "bound": out.len()});
     Ok((out, info))
 }
+
+/// Networks whose variable names are unusual as data: names that look like the spare variables'
+/// names, names equal to the internal HCTL variable names, a name that is a prefix of another, names
+/// that look like operators / constants. (Semantics are ordinary; only the names are special.)
+pub fn name_nets(k: u16) -> Result<Vec<Arc<Bound>>, String> {
+    let specs = [
+        ("xtr2", "Ca_extra_cell -> b_extra_1; b_extra_1 -?? Ca_extra_cell; $b_extra_1: Ca_extra_cell"),
+        ("nam2", "x -?? xx; xx -| x; $x: !xx"),
+        ("pre2", "a -> ab; ab -?? a; ab -?? ab; $ab: a | ab"),
+        ("kw2", "EF1 -| TRUE; TRUE -?? EF1; $TRUE: !EF1"),
+    ];
+    let mut out = vec![];
+    for (name, text) in specs {
+        out.push(Arc::new(bind(name, &crate::nets::spec(text), k)?));
+    }
+    Ok(out)
+}
